@@ -71,6 +71,21 @@ CLAIMS = {
        "no-chunk error, composition with the processors; boolean-mask indexing is a trusted library model.",
   technique="contract-based deductive verification (modular: Chunk.split contract at call sites; lemma over the contracts)",
   design_ref="DESIGN.md section 6, C10"),
+ "C11": dict(
+  category="proof",
+  text="Contract-based deductive proof over the real source of the planning decision logic: Context._target_should_be_saved returns true "
+       "exactly for always / target-and-is-a-target / explicit-and-listed and raises exactly for a never-saved type listed in save=; in "
+       "get_components.check_cache (symbolic execution of the real nested function, all context calls abstracted) a saver is created only "
+       "when there is no time range, selection, column projection, fuzzy matching, tolerance of incomplete data, temporary type, loaded "
+       "target or disabled superrun writing AND the policy allows it; a plugin is scheduled for computation only when nothing could be "
+       "loaded and creation is allowed; a found loader excludes computation and saving; the function's own DataNotAvailable is raised "
+       "exactly in the forbidden / always-saved-under-time-range cases. The planning recursion as a whole is a bounded stand-in on the "
+       "real Context (small DAGs x stored subsets x policies x modifiers).",
+  note="Not proved: that exactly the reachable-not-stored plugins run and each type is delivered once from one origin (bounded stand-in); "
+       "frontend filters (_we_take / find / _add_saver) and the processors' loader-vs-plugin wiring are not yet under contract. Context "
+       "state is opaque; recursion is handled by induction (same contract).",
+  technique="contract-based deductive verification (dominance obligations via ghost flags in symbolic execution of the real nested function) + bounded stand-in",
+  design_ref="DESIGN.md section 6, C11"),
 }
 
 NA_REASON = "check not built yet (see DESIGN.md section 6 for the plan)"
